@@ -11,9 +11,12 @@ ASSUMPTIONS = [
     "used in the correspondence run is the glob model of property C17 (model/Glob.v, gmatch_bool)",
     "path.Clean / path.Join (Go standard library) are modelled functionally (model/Clean.v), not assumed: compared with the real "
     "functions exhaustively over {a . /} up to length 8 (Clean) and all pairs up to length 4 (Join) on every run",
-    "strings.ToLower is modelled on bytes < 128 only (A-Z -> a-z, everything else unchanged). Rule tokens containing non-ASCII "
-    "bytes at keyword positions are outside the model: Go folds U+0130 to 'i' and U+212A to 'k', so e.g. \"MOD\\u0130FY\" is "
-    "accepted as MODIFY by the code; the generators only use non-ASCII tokens that cannot fold into ASCII letters and the oracle makes no claim for them",
+    "strings.ToLower is modelled as far as equality with the ASCII keywords goes (all UnpackRule observes of it): A-Z -> a-z plus "
+    "the only two non-ASCII characters whose lower case is an ASCII letter (checked over all runes), U+0130 -> 'i' and U+212A "
+    "KELVIN SIGN -> 'k' (so \"MOD\\u0130FY\" is the keyword MODIFY in the code, in the model, in the spec's ci and in the oracle); "
+    "every other byte is kept. A token that is not a keyword after this lower-casing makes the rule malformed (an error). The "
+    "generators replace every letter of every keyword/token by its Unicode fold-equivalents and look-alikes (U+017F long s, Kelvin "
+    "sign, dotted/dotless i, fullwidth, Cyrillic/Greek/Roman-numeral look-alikes, combining marks) in every rule shape",
     "reflect.DeepEqual on hash objects is modelled as equality of finite maps (same length, every key bound to the same digest); hash "
     "objects present in an artifact map are non-nil maps (a JSON null hash object is not modelled); the zero value of an absent key is "
     "the nil map, unequal to every non-nil map",
@@ -107,7 +110,16 @@ def correspondence(ctx):
         "each case with colliding unclean names is run 7 times; caller's maps compared before/after. Extracted-model tier: "
         "path.Clean on all 9841 strings over {a . /} of length <= 8, path.Join on all 14641 pairs of length <= 4, UnpackRule on "
         "mutated rules, verifyMatchRule through the hook, VerifyArtifacts with the queue of the first item read back by DISALLOW "
-        "probes. Class labels: <generator>/<how the oracle's run ended>[+consumed = some rule consumed >= 1 artifact]; 'no-oracle' = "
+        "probes; UnpackRule and VerifyArtifacts on EVERY keyword/token variant (each letter of create/modify/delete/allow/disallow/"
+        "require/match/with/from/in/materials/products replaced by each fold-equivalent or look-alike, lower and upper case, in "
+        "every rule shape and token position; artifacts that the intended rule would reject or consume: a token that is not a "
+        "keyword must give an error, never 'accepted and ignored'); rooted classes: absolute artifact paths with MATCH prefixes "
+        "that clean to '/' ('/', '//', '/./', '/x/..'), absolute directories, '.', './', a prefix equal to a whole path, as source "
+        "prefix, destination prefix and both. Rooted paths are excluded from the well-formed inputs of C03_model_eq_spec "
+        "(clean_path is relative): these cases are compared against the naive oracle (artifact under prefix P = P joined with a "
+        "base name by exactly one slash, root = '/') and against the model (go_clean handles rooted paths) outside that theorem; "
+        "prefixes denoting '.' or climbing out ('..') and absolute base names below a destination prefix: model vs implementation "
+        "only. Class labels: <generator>/<how the oracle's run ended>[+consumed = some rule consumed >= 1 artifact]; 'no-oracle' = "
         "input outside the oracle's domain (only model vs implementation). non-trivial = at least one rule (V), distinct rule (U), "
         "non-empty consumed set (M); distinct = distinct input JSON")
     if not quick:
